@@ -291,7 +291,7 @@ def twin_sheets(run):
 def whole_column_lookups(run):
     """Lookups over WHOLE columns after set_cells has appended rows below the rows stored in the workbook: the whole column is every row
     the sheet has when the formula is evaluated. The observed rows are judged by Trace_C14 against the extended key column."""
-    stored = [10, 20, 30]
+    stored = [10, 20, 30, 40, 50, 60, 70]          # as many stored rows as the sheet has (the formulas of the probe fill rows 1..7 of column Z)
     forms = ['=VLOOKUP(E1,A:C,2,FALSE)', '=VLOOKUP(E1,A:C,2,TRUE)', '=MATCH(E1,A:A,0)', '=MATCH(E1,A:A,1)', '=XMATCH(E1,A:A,0,-1)', '=INDEX(B:B,MATCH(E1,A:A,0))', '=XMATCH(E1,A:A)']
     kinds = ['VEXACT', 'VAPPROX', 'EXACT', 'APPROX', 'LAST', 'PARTNER', 'EXACT']
     consts = {}
@@ -299,14 +299,15 @@ def whole_column_lookups(run):
         consts[(0, i)], consts[(1, i)], consts[(2, i)] = k, 100 * (i + 1) + 2, 100 * (i + 1) + 3
     p = repo.Probe(forms, consts)
     evs = []
-    for appended in ([], [40], [40, 50], [40, 40, 60]):
+    assert len(forms) <= len(stored)
+    for appended in ([], [80], [80, 90], [80, 80, 100]):
         keys = stored + appended
         ses = p.session()
         ov = []
         for i, k in enumerate(appended):
             r0 = len(stored) + i
             ov += [(0, 0, r0, k), (0, 1, r0, 100 * (r0 + 1) + 2), (0, 2, r0, 100 * (r0 + 1) + 3)]
-        for v in (10, 30, 40, 45, 50, 60, 65, 5):
+        for v in (10, 70, 80, 85, 90, 100, 105, 5):
             res = ses.eval(ov + [(0, 4, 0, v)])
             for f, r, form in zip(kinds, res, forms):
                 evs.append({'f': f, 'keys': keys, 'v': v, 'o': code(*r), 'raw': show(*r), 'formula': f'{form} with E1={v}, rows appended by set_cells: {appended}'})
